@@ -26,6 +26,7 @@ func specC12() *propertySpec {
 			{"C12-R2", "search-is-complete-in-shape: every word is offered to minimize; minimize reaches binSearch and returns best; binSearch narrows only on evidence; accept lowers best only under u < best and cond(u); every standalone group is offered for removal", ruleC12R2},
 			{"C12-R3", "accepted candidates keep the failure and are strictly smaller (shared with C05-R1)", ruleC05R1},
 			{"C12-R4", "saturated-draw-replays-as-maximum: the word recorded for a saturating draw (n > 64) has all 64 bits set, so that the shrinker's replay under the mask of any full-width draw reads the range maximum; drawn = recorded = returned (shared with C04-R3)", ruleC04R3},
+			{"C12-R5", "minimisation-has-its-own-budget: the deadline handed to shrink is shrinkDeadline(deadline) evaluated after the failure was found, so that the time the search took is not deducted from -rapid.shrinktime", ruleShrinkBudget},
 		},
 	}
 }
@@ -352,4 +353,27 @@ func idxValue(p *Program, v ssa.Value) ssa.Value {
 		}
 	}
 	return nil
+}
+
+// ruleShrinkBudget: "given enough time" presupposes that the minimisation allowance starts when minimisation starts.
+func ruleShrinkBudget(r *Run) {
+	p := r.P
+	dc := r.MustFn("doCheck")
+	if dc == nil {
+		return
+	}
+	fbs := p.callsTo(dc, "findBug")
+	n := 0
+	for _, cs := range p.callsTo(dc, "shrink") {
+		n++
+		sd, ok := p.resolve(cs.Arg(1)).(*ssa.Call)
+		okFresh := ok && p.calleeKey(sd.Common()) == "shrinkDeadline" && p.expr(sd.Common().Args[0]) == "$deadline" && len(fbs) == 1 && dominates(fbs[0].Instr, sd)
+		r.Check("doCheck#shrink-deadline-fresh", cs.Instr.Pos(), okFresh, "shrink gets shrinkDeadline(deadline), computed after the search", "the deadline of shrink is "+p.expr(cs.Arg(1))+", not shrinkDeadline(deadline) evaluated after findBug: a long search uses up the minimisation allowance and the unminimised counterexample is reported")
+	}
+	r.Floor("shrink calls in doCheck", n, 1)
+	if fn := r.MustFn("shrinkDeadline"); fn != nil {
+		// now + shrinktime, capped by the test deadline
+		okNow := len(p.callsTo(fn, "time.Now")) >= 1
+		r.Check("shrinkDeadline#from-now", fn.Pos(), okNow, "the allowance counts from the moment shrinkDeadline is called", "shrinkDeadline no longer starts from time.Now()")
+	}
 }
